@@ -136,6 +136,16 @@ ReqViol(e) ==
   ELSE IF InU(e.item) /\ O.tries > 0 /\ vtry[e.item] >= O.tries THEN 41  \* C18: attempted again after tries exhausted
   ELSE 0
 
+\* every clause a page request violates (ReqViol names the first)
+ReqViolAll(e) ==
+  IF e.kind = "robots" \/ ~InU(e.u) THEN {ReqViol(e)} \ {0}
+  ELSE ({ReqViol(e)} \ {0})
+       \cup (IF RobotsOn /\ ~robotsDone[S.origin[e.u]] THEN {32} ELSE {})
+       \cup (IF Disallowed(e.u) THEN {33} ELSE {})
+       \cup (IF e.u \notin mayreq THEN (IF e.u \in mayreqNF THEN {34} ELSE {21}) ELSE {})
+       \cup (IF InU(e.item) /\ vreq[e.item] + 1 > VisitBound THEN {40} ELSE {})
+       \cup (IF InU(e.item) /\ O.tries > 0 /\ vtry[e.item] >= O.tries THEN {41} ELSE {})
+
 ExitViol(e) ==
   IF S.benign = 1 /\ ~crashed
   THEN IF e.code # 0 THEN 10
@@ -155,6 +165,10 @@ ExitViol(e) ==
   ELSE 0
 
 Cap(n) == IF n < 9 THEN n + 1 ELSE n
+
+\* clause numbers of the property this batch is checked for (empty: every clause counts)
+Focus == IF "focus" \in DOMAIN Batch[tid] THEN Range(Batch[tid].focus) ELSE {}
+Own(c) == Focus = {} \/ c \in Focus
 
 MNext ==
   /\ l <= Len(Ev) /\ l' = l + 1 /\ UNCHANGED tid
@@ -196,13 +210,20 @@ MNext ==
                       THEN [robotsDone EXCEPT ![e.h] = TRUE]
                       ELSE robotsDone
      /\ robotsAsked' = robotsAsked
-     /\ viol' = IF viol # 0 THEN viol
-                ELSE IF e.e = "req" THEN ReqViol(e)
-                ELSE IF e.e = "exit" THEN ExitViol(e)
-                ELSE IF e.e = "hang" THEN 14                          \* the crawl never terminated
-                ELSE IF e.e = "tx" /\ e.op = "check_in" /\ InU(e.u) /\ e.inc /\ O.tries > 0 /\ try[e.u] >= O.tries + 1
-                THEN 44
-                ELSE 0
+     \* the first violated clause of the property being checked (Focus) is kept; a clause of another property
+     \* seen earlier does not hide it
+     /\ LET nv == IF e.e = "req" THEN ReqViol(e)
+                  ELSE IF e.e = "exit" THEN ExitViol(e)
+                  ELSE IF e.e = "hang" THEN 14                          \* the crawl never terminated
+                  ELSE IF e.e = "tx" /\ e.op = "check_in" /\ InU(e.u) /\ e.inc /\ O.tries > 0 /\ try[e.u] >= O.tries + 1
+                  THEN 44
+                  ELSE 0
+            nv2 == IF e.e = "req" /\ nv # 0 /\ ~Own(nv) /\ ReqViolAll(e) \cap Focus # {}
+                   THEN CHOOSE c \in ReqViolAll(e) \cap Focus : \A d \in ReqViolAll(e) \cap Focus : c <= d
+                   ELSE nv
+        IN viol' = IF viol # 0 /\ Own(viol) THEN viol
+                   ELSE IF nv2 # 0 /\ (Own(nv2) \/ viol = 0) THEN nv2
+                   ELSE viol
 
 MSpec == MInit /\ [][MNext]_mvars
 
@@ -210,7 +231,8 @@ ASSUME \A i \in 1..(2 * NT) : TLCSet(i, 0)
 
 Record ==
   /\ IF TLCGet(tid) < l THEN TLCSet(tid, l) ELSE TRUE
-  /\ IF viol # 0 /\ TLCGet(NT + tid) = 0 THEN TLCSet(NT + tid, viol * 100000 + l) ELSE TRUE
+  /\ IF viol # 0 /\ (TLCGet(NT + tid) = 0 \/ (TLCGet(NT + tid) \div 100000) # viol)
+     THEN TLCSet(NT + tid, viol * 100000 + l) ELSE TRUE
 
 Post == PrintT(<<"VERDICTS_BEGIN",
                  [i \in 1..NT |-> <<TLCGet(i) - 1, TLCGet(NT + i) \div 100000, TLCGet(NT + i) % 100000>>],
